@@ -6,7 +6,7 @@
 # <seed-dir> contains patch.diff, demo/ (with RUN.txt), meta.json
 set -u
 SD=$1; P=$2; TIER=${3:-quick}
-NAME=$(basename "$SD")
+NAME=${SEED_NAME:-$(basename "$SD")}
 source /verif/env.sh; unset GOCACHE
 WT=/tmp/seedv/$NAME
 rm -rf "$WT"; git -C /repo worktree prune; git -C /repo worktree add -q --detach "$WT" HEAD || exit 2
@@ -21,8 +21,8 @@ echo "== RUN.txt:"; cat "$SD/demo/RUN.txt"
 if [ -z "${SEED_DEMO_CMD:-}" ]; then
   SEED_DEMO_CP=$(grep -E '^(cp|mkdir) ' "$SD/demo/RUN.txt" | sed "s#<OUT>#$(dirname $SD)#g" | tr '\n' ';')
   SEED_DEMO_CMD=$(grep -E 'go1.26.8 (test|run)' "$SD/demo/RUN.txt" | grep -v '^#' | sed -E 's#^cd [^ ]+ && ##; s/^timeout [0-9]+ //' | head -1)
-  SEED_DEMO_CP=$(echo "$SEED_DEMO_CP" | sed -E "s#/tmp/seed/[ST][0-9]#$WT#g")
-  SEED_DEMO_CMD=$(echo "$SEED_DEMO_CMD" | sed -E "s#/tmp/seed/[ST][0-9]#$WT#g")
+  SEED_DEMO_CP=$(echo "$SEED_DEMO_CP" | sed -E "s#/tmp/seed/[A-Z][0-9]#$WT#g")
+  SEED_DEMO_CMD=$(echo "$SEED_DEMO_CMD" | sed -E "s#/tmp/seed/[A-Z][0-9]#$WT#g")
 fi
 echo "== demo cp: $SEED_DEMO_CP"; echo "== demo cmd: $SEED_DEMO_CMD"
 if [ -n "${SEED_DEMO_CP:-}" ]; then eval "$SEED_DEMO_CP"; fi
